@@ -30,6 +30,66 @@ pub fn take_choices() -> Vec<String> {
     CHOICES.with(|c| std::mem::take(&mut *c.borrow_mut()))
 }
 
+thread_local! {
+    static FORCED: RefCell<VecDeque<String>> = const { RefCell::new(VecDeque::new()) };
+}
+
+/// Replay support: the choices recorded in an earlier run (`"matches [3, 1]"`, `"random 2"`,
+/// `"retained [\"a\", \"b\"]"`), to be made again in this order by the next event. A forced
+/// choice that is not admissible where it is consulted is ignored.
+pub fn force_choices(v: Vec<String>) {
+    FORCED.with(|f| *f.borrow_mut() = v.into());
+}
+
+fn forced(kind: &str) -> Option<String> {
+    FORCED.with(|f| {
+        let mut f = f.borrow_mut();
+        match f.front() {
+            Some(c) if c.starts_with(kind) && c[kind.len()..].starts_with(' ') => {
+                f.pop_front().map(|c| c[kind.len() + 1..].to_string())
+            }
+            _ => None,
+        }
+    })
+}
+
+fn parse_list(s: &str) -> Vec<String> {
+    let inner = s.trim().trim_start_matches('[').trim_end_matches(']');
+    inner
+        .split(", ")
+        .filter(|x| !x.is_empty())
+        .map(|x| x.trim_matches('"').to_string())
+        .collect()
+}
+
+/// hash-map iteration order of `DataLog::matches`
+pub fn forced_order(v: Vec<usize>) -> Vec<usize> {
+    let Some(c) = forced("matches") else { return v };
+    let w: Vec<usize> = parse_list(&c).iter().filter_map(|x| x.parse().ok()).collect();
+    let (mut a, mut b) = (v.clone(), w.clone());
+    a.sort_unstable();
+    b.sort_unstable();
+    if a == b {
+        w
+    } else {
+        v
+    }
+}
+
+/// hash-map iteration order of the retained messages matching a filter
+pub fn forced_topics(natural: &[&str]) -> Option<Vec<String>> {
+    let w = parse_list(&forced("retained")?);
+    let (mut a, mut b): (Vec<&str>, Vec<&str>) = (natural.to_vec(), w.iter().map(|x| x.as_str()).collect());
+    a.sort_unstable();
+    b.sort_unstable();
+    (a == b).then_some(w)
+}
+
+/// the draw of the Random shared-subscription strategy
+pub fn forced_index(len: usize) -> Option<usize> {
+    forced("random")?.trim().parse().ok().filter(|n| *n < len)
+}
+
 /// The link-side ends of a connection's two shared buffers and its wake-up channel.
 pub struct LinkEnds {
     pub incoming: Arc<Mutex<VecDeque<crate::protocol::Packet>>>,
